@@ -506,7 +506,10 @@ def i1(ctx):
         ok = False
         for p in ctx.paths(f, 'plain'):
             for e in p.trace:
-                if e.kind == 'CALL' and e.d['targets'][0].name == '_index':
+                t0 = e.d['targets'][0] if e.kind == 'CALL' else None
+                # the position-resolving helper: a private Deque method handed the index and a callable
+                if t0 is not None and t0.cls == 'Deque' and t0.name.startswith('_') and not t0.name.startswith('__') \
+                        and len(e.d['args']) == 2 and e.d['args'][1].k in ('bound', 'func'):
                     a = e.d['args']
                     ok = len(a) == 2 and a[0].k == 'param' and a[0].a[0] == 'index' and (
                         a[1].k == 'bound' and a[1].a[1] == func or _closure_calls(ctx, a[1], func))
